@@ -91,7 +91,9 @@ def parseCAction : List String → Option CAction
   | ["ip"] => some .ip
   | ["setip", h] => (parseHex h).map .setIp
   | ["setrawname", h] => (parseHex h).map .setRawName
-  | ["setname", h, z] => (parseHex h).map (fun t => .setName t (if z == "." then none else parseHex z))
+  | ["setname", h, z] =>
+    -- c_abi.rs: a NULL zone pointer or a zero length both mean "no default zone"
+    (parseHex h).map (fun t => .setName t (if z == "." || z == "-" then none else parseHex z))
   | ["delete"] => some .delete
   | ["delete2"] => some .delete2
   | ["none"] => some .nothing
